@@ -1,6 +1,7 @@
 import Yuiv.Model.C06Canon
 import Yuiv.Proofs.C06
 import Mathlib.Tactic.Ring
+import Mathlib.Tactic.LinearCombination
 /- helper lemmas for the canonical cycle construction (C06Canon) -/
 namespace Yuiv.C06Canon
 open Yuiv Yuiv.KhRef
@@ -99,6 +100,9 @@ theorem factor_sorted (h : Int) (c : Colour) : (factor h c).Pairwise (fun x y =>
   cases c with
   | a => simp [factor]
   | b => by_cases h0 : h = 0 <;> simp [factor, h0]
+
+/-- the chain of a colour list at the state `s`: what `canonCyclesAt` returns for each cycle -/
+def chainOf (s : Nat) (h : Int) (cs : List Colour) : Chain := (expand h cs).map (fun t => (⟨s, t.1⟩, t.2))
 
 /-! ### C. local algebra -/
 
